@@ -10,6 +10,8 @@ COMMON_TRUSTED = [
 BASE = ['Proofs/BytesP.v']
 CODEC = BASE + ['Proofs/CodecP.v']
 
+COMPARE = CODEC + ['Proofs/CompareP.v']
+
 PROPS = {
     'C02': dict(
         families=['codec'], reports=['codec_enc', 'codec_dec'], consts=True,
@@ -28,5 +30,18 @@ PROPS = {
         proof_files=CODEC,
         theorems='c04_total, c04_exact, c04_prefix_free, c04_no_silent_truncation, c04_limit_boundary, c04_cmp_same_language',
         assumptions=['byte strings up to 70000 bytes in the correspondence; theorems unbounded'],
+    ),
+    'C06': dict(
+        families=['compare'], reports=['compare'], consts=True,
+        proof_files=COMPARE,
+        theorems='c06_is_lex, c06_refl, c06_antisym, c06_trans, c06_trans_lt, c06_eq_iff, c06_same_is_identical, c06_prefix_first, c06_min_max (+ c06_nan_payload_irreflexive: the domain edge)',
+        assumptions=['domain: well-formed tokens whose float payloads are not NaN (the canonical NaN is the NaN kind, which is in the domain)',
+                     'IEEE-754 ordering of non-NaN floats is modelled as a sign-magnitude key on bit patterns (Base/Floats.v); validated against Go on boundary and random bit patterns by every run'],
+    ),
+    'C07': dict(
+        families=['compare'], reports=['compare', 'compare_raw'], consts=True,
+        proof_files=COMPARE,
+        theorems='c07_routes_agree, c07_bytes_route, c07_segmented_route, c07_segments_like_unsplit, c07_segments_prefix',
+        assumptions=['domain as C06; payload lengths < 2^56 (8 uvarint bytes, the decoder limit)'],
     ),
 }
